@@ -1,10 +1,21 @@
 #!/bin/bash
-# Build the whole Coq development from clean (full .vo build), offline.
-set -e
+# Build the Coq development from clean (full .vo build, never -vos), offline:
+# the regenerated Gen files, the models, the correspondence glue and the closure of every
+# claimed property's Props/Cxx.v.  A file that fails to compile is reported here and makes
+# the check of the property that depends on it fail (proof obligation broken); it does not
+# stop the other properties from being built.
 cd "$(dirname "$0")"
 export PYTHONHASHSEED=0 PYTHONPATH=/repo LASIO_VERIF=1
-/venv/bin/python translators/run_all.py || true
+/venv/bin/python translators/run_all.py || echo "setup: a translator failed (the dependent checks will report it)"
 cd coq
 ./gen_project.sh
-timeout 3000 make -j16
-echo "setup ok"
+targets="Corr/CaseLib.vo Corr/ReadShow.vo Corr/WriteShow.vo"
+for p in $(/venv/bin/python -c "import json;print(' '.join(c['property_id'] for c in json.load(open('../MANIFEST.json'))['checks']))"); do
+  targets="$targets Props/$p.vo"
+done
+flock .lock timeout 3000 make -k -j16 $targets > ../out_setup.log 2>&1
+rc=$?
+grep -E "Error|\*\*\*" ../out_setup.log | head -20
+echo "setup: make exit $rc ($(ls Props/*.vo 2>/dev/null | wc -l) Props files built)"
+rm -f ../out_setup.log
+exit 0
